@@ -18,6 +18,8 @@ mod script;
 mod session;
 mod world_a;
 mod world_b;
+mod world_pty;
+mod world_watch;
 
 use engine::Tier;
 
